@@ -7,6 +7,8 @@ using namespace vf;
 
 #include "c01.hpp"
 #include "c13.hpp"
+#include "c14.hpp"
+#include "c15.hpp"
 
 int main(int argc, char **argv) {
     if (argc < 3) {
@@ -18,6 +20,8 @@ int main(int argc, char **argv) {
     int rc = 2;
     if (prop == "c01") rc = drive("C01", opt, c01::body);
     if (prop == "c13") rc = drive("C13", opt, c13::body);
+    if (prop == "c14") rc = drive("C14", opt, c14::body);
+    if (prop == "c15") rc = drive("C15", opt, c15::body);
     if (opt.own_work) rm_rf(opt.work);
     return rc;
 }
